@@ -85,11 +85,27 @@ def run(sc, speculative):
         cfg["variables"] = {"initial_values": POOL[1].tolist() + [9.0], "mask": [True, True, False],
                             "lower_bounds": [-5.0, -5.0, -10.0], "upper_bounds": [5.0, 5.0, 10.0]}
         cfg["optimizer"]["parallel"] = True
+    import zlib
+    crc = zlib.crc32(str(sc["hist"]).encode())
+    # a "monitor only" non-linear constraint (no bound on either side) IN FRONT of the bounded one: it is not handed to the
+    # algorithm, the rows that are handed over still are the bounded constraint and the linear row
+    monitor = hasnl and cls != "pop" and crc % 3 == 0
     if hasnl:
-        cfg["nonlinear_constraints"] = {"lower_bounds": [-INF], "upper_bounds": [100.0]}
+        cfg["nonlinear_constraints"] = ({"lower_bounds": [-INF, -INF], "upper_bounds": [INF, 100.0]} if monitor
+                                        else {"lower_bounds": [-INF], "upper_bounds": [100.0]})
     if haslin:
         cfg["linear_constraints"] = {"coefficients": [[1.0, 1.0] + ([0.0] if cls == "pop" else [])], "lower_bounds": [-INF], "upper_bounds": [50.0]}
-    import zlib
+    # a variable transform as an orthogonal switch: the algorithm's points (the pool) are optimizer coordinates, the
+    # evaluator receives user coordinates and maps them back before it looks at them
+    transforms = None
+    S_, O_ = np.array([2.0, 0.5]), np.array([1.0, -1.0])
+    if cls != "pop" and crc % 2 == 0:
+        from ..transforms_util import make_transforms
+        transforms = make_transforms(var_scales=S_, var_offsets=O_)
+        cfg["variables"]["initial_values"] = (POOL[1] * S_ + O_).tolist()
+        if haslin:       # the same row x1 + x2 <= 50 of the optimizer coordinates, written for the user's coordinates
+            cfg["linear_constraints"] = {"coefficients": [(1.0 / S_).tolist()], "lower_bounds": [-INF],
+                                         "upper_bounds": [50.0 + float((O_ / S_).sum())]}
     pfail = cls == "grad" and zlib.crc32(str(sc["hist"]).encode()) % 2 == 1      # failures confined to perturbed evaluations
     if pfail:
         cfg["realizations"]["realization_min_success"] = 1
@@ -102,6 +118,8 @@ def run(sc, speculative):
         sel = context.realizations == 0
         fixedpart = 7.0 * variables[:, 2] if cls == "pop" else 0.0          # zero as long as the fixed variable has its start value
         variables = variables[:, :2]
+        if transforms is not None:
+            variables = (variables - O_) / S_
         if perts is None:
             pts = [pool_index(v) for v in variables[sel]]
         else:
@@ -113,7 +131,10 @@ def run(sc, speculative):
             # every perturbed evaluation of the second realization fails: the gradient then rests on the first realization
             # alone (the same gradient), the function values of that point are not concerned
             objectives[(perts >= 0) & (context.realizations == 1)] = np.nan
-        return EvaluatorResult(objectives=objectives, constraints=fcon(variables)[:, None] if hasnl else None)
+        cons = fcon(variables)[:, None] if hasnl else None
+        if monitor:
+            cons = np.concatenate([(777.0 + variables[:, :1]), cons], axis=1)
+        return EvaluatorResult(objectives=objectives, constraints=cons)
 
     events = []
     sig = []
@@ -176,6 +197,8 @@ def run(sc, speculative):
     step = plan.add_step("optimizer")
     with patched(script=script):
         kwargs = {"variables": POOL[1].tolist() + [0.0]} if cls == "pop" else {}
+        if transforms is not None:
+            kwargs["transforms"] = transforms
         _, outcome = outcome_of(lambda: plan.run_step(step, config=cfg, **kwargs))
     if outcome != "ok":
         events.append({"ev": "Req", "op": "run", "xs": [], "ats": [], "outcome": outcome, "cbs": [], "evals": [], "reqpt": 0,
